@@ -625,6 +625,12 @@ impl Write for SimDisk {
     fn write(&mut self, buf: &[u8]) -> io::Result<usize> {
         self.lock().do_write(buf)
     }
+    /// A native gather write: one operation takes bytes from as many slices as the transfer
+    /// policy grants (the default implementation would only ever look at the first slice).
+    fn write_vectored(&mut self, bufs: &[io::IoSlice<'_>]) -> io::Result<usize> {
+        let all: Vec<u8> = bufs.iter().flat_map(|b| b.iter().copied()).collect();
+        self.lock().do_write(&all)
+    }
     fn flush(&mut self) -> io::Result<()> {
         self.lock().do_flush()
     }
@@ -651,6 +657,14 @@ impl AsyncWrite for SimDisk {
             return Poll::Pending;
         }
         Poll::Ready(g.do_write(buf))
+    }
+    fn poll_write_vectored(self: Pin<&mut Self>, cx: &mut Context<'_>, bufs: &[io::IoSlice<'_>]) -> Poll<io::Result<usize>> {
+        let mut g = self.lock();
+        if g.maybe_pend(cx, false) {
+            return Poll::Pending;
+        }
+        let all: Vec<u8> = bufs.iter().flat_map(|b| b.iter().copied()).collect();
+        Poll::Ready(g.do_write(&all))
     }
     fn poll_flush(self: Pin<&mut Self>, cx: &mut Context<'_>) -> Poll<io::Result<()>> {
         let mut g = self.lock();
